@@ -112,6 +112,8 @@ def gen_cfg(rng, max_vars=4, max_terms=3, max_prods=7, max_body=4, profile=None,
 # ---------------------------------------------------------------------------
 
 MIXED = {"a": 1, "b": "b", "c": 2.5, "zz": "zz"}
+BININT = {"a": 0, "b": 1, "c": 2, "zz": 9}        # small ints: the binary alphabet 0 / 1 (token ids)
+TERM_MAPS = {"mixed": MIXED, "binint": BININT}
 
 
 def val(case, name):
@@ -129,6 +131,9 @@ def val(case, name):
     if case["valmode"] == "mixed2":
         # terminals that print alike but are different values: 1 and "1", "a b" next to "a" and "b"
         return {"a": 1, "b": "1", "c": "1 1", "zz": "zz"}.get(name, name)
+    if case["valmode"] == "binint":
+        # terminals are small ints (the values the library itself gives to the variables of an intersection / to_cfg)
+        return BININT.get(name, name)
     if case["valmode"] == "mixed":
         # terminal values of different, mutually incomparable types (int, str, float); variables stay strings
         return MIXED.get(name, name)
@@ -241,7 +246,7 @@ def shrink_cfg(case):
         if ident != case["hash"]:
             yield mk(hash=ident)
         yield mk(valmode="str", hash=None)
-    if case["valmode"] in ("mixed", "mixed2", "pvar", "termname"):
+    if case["valmode"] in ("mixed", "mixed2", "pvar", "termname", "binint"):
         yield mk(valmode="str")
 
 
